@@ -115,6 +115,69 @@ func classify(sc *Scenario, r Result) (bool, []string) {
 			cl = append(cl, "has-failing-element")
 		}
 		return fails >= 1 && succ >= 1 && succAfter, cl
+	case "C08":
+		cl = []string{"cap=" + strconv.Itoa(sc.Caps0()), "end=" + sc.Mode}
+		if r.Backpressure {
+			cl = append(cl, "backlog>=2")
+		}
+		if r.CancelBlocked {
+			cl = append(cl, "drained-to-empty-and-refilled")
+		}
+		endsWithBacklog := false
+		for i, m := range sc.Script {
+			if (m.K == "cancel" || m.K == "close") && i > 0 && sc.Script[i-1].K == "burst" {
+				endsWithBacklog = true
+			}
+			if m.K == "batch" {
+				endsWithBacklog = true
+				cl = append(cl, "sends-racing-cancel")
+			}
+		}
+		if endsWithBacklog {
+			cl = append(cl, "ends-with-backlog")
+		}
+		return r.Backpressure && (endsWithBacklog || r.CancelBlocked), cl
+	case "C11":
+		cl = []string{"stage=" + sc.Stage, "mode=" + sc.Mode, "unit=" + strconv.Itoa(sc.Unit)}
+		idle := false
+		for _, cp := range sc.T.Consume {
+			if cp[0] >= 2*max(sc.Freq, 1) {
+				idle = true
+			}
+		}
+		if idle {
+			cl = append(cl, "consumer-idle-gap")
+		}
+		if len(sc.T.Consume) == 0 {
+			cl = append(cl, "consumer-always-ready")
+		}
+		if sc.T.CancelAt > 0 {
+			cl = append(cl, "cancel-mid-run")
+		}
+		return r.Received >= 3 && (sc.Caps0() < r.Received || idle), cl
+	case "C13":
+		cl = []string{"ops=" + strconv.Itoa(sc.Ops), "cap=" + strconv.Itoa(sc.Caps0())}
+		stall := false
+		for _, cp := range sc.T.Consume {
+			if cp[0] >= 2*max(sc.Interval, 1) {
+				stall = true
+			}
+		}
+		for _, a := range sc.T.Arrive {
+			if a[0] >= 2*max(sc.Interval, 1) {
+				stall = true
+			}
+		}
+		if sc.saturated() {
+			cl = append(cl, "saturated")
+		}
+		if stall {
+			cl = append(cl, "idle-period-then-burst")
+		}
+		if sc.T.CancelAt > 0 {
+			cl = append(cl, "cancel-mid-run")
+		}
+		return len(sc.In[0]) >= 2*max(sc.Ops, 1)+1 && (stall || (sc.saturated() && sc.Ops >= 2)), cl
 	case "C12":
 		nonEmpty := 0
 		for _, x := range sc.In {
@@ -166,6 +229,29 @@ func TestC06(t *testing.T) {
 
 func TestC07(t *testing.T) {
 	rapid.Check(t, func(rt *rapid.T) { check(t, rt, "C07", "TestC07", genC07(rt), 1) })
+}
+
+func checkWith(t *testing.T, ft interface{ Fatalf(string, ...any) }, prop, test string, sc *Scenario, exec func(*testing.T, *Scenario) Result) {
+	vk.Journal(prop, test, sc)
+	r := exec(t, sc)
+	nt, cl := classify(sc, r)
+	vk.Record(sc, nt, cl...)
+	if r.Msg != "" {
+		vk.Fail(prop, test, "", sc, r.Msg)
+		ft.Fatalf("%s", r.Msg)
+	}
+}
+
+func TestC08(t *testing.T) {
+	rapid.Check(t, func(rt *rapid.T) { checkWith(t, rt, "C08", "TestC08", genC08(rt), ExecUnbound) })
+}
+
+func TestC11(t *testing.T) {
+	rapid.Check(t, func(rt *rapid.T) { checkWith(t, rt, "C11", "TestC11", genC11(rt), ExecTimed) })
+}
+
+func TestC13(t *testing.T) {
+	rapid.Check(t, func(rt *rapid.T) { checkWith(t, rt, "C13", "TestC13", genC13(rt), ExecTimed) })
 }
 
 func TestC12(t *testing.T) {
